@@ -29,6 +29,10 @@ def bindings(rnd, n):
         (("#333333", (1.0, 1.0, 1.0), False), ("#010101", "#ffffff", False)),
         (((1, 1, 1), (1.0, 1.0, 1.0), False), ((1.0, 1.0, 1.0), (0, 0, 0), True)),
         (((True, True, True), "#ffffff", False), ((0.0, 0.0, 1.0), (0, 0, 1), False)),
+        # a sequence and the informal string spelled exactly like its repr / str
+        (((0.6, 0.6, 0.6), "white", False), ("(0.6, 0.6, 0.6)", "white", False)),
+        (((200.0, 0.5, 0.5), "#ffffff", False), ("(200.0, 0.5, 0.5)", "#ffffff", False)),
+        (([119, 119, 119], "#ffffff", False), ("[119, 119, 119]", "#ffffff", False)),
     ]
     out += fixed
     while len(out) < n:
@@ -178,7 +182,7 @@ def main():
     rep.add_model("ApiHist(Depth=3,NP=2) history generator", r, "abstract histories replayed into the implementation")
     hists = [h for h in hists if len(h) >= 2 and any(o[0] in ("fix", "bulk") for o in h[1:])]
     rep.extra["histories_enumerated_by_tlc"] = len(hists)
-    nb = 11 if t == "quick" else 40
+    nb = 14 if t == "quick" else 40
     binds = bindings(rnd, nb)
     nh = 420 if t == "quick" else 9000
     jobs = []
@@ -190,7 +194,24 @@ def main():
     thread_runs = []
     for k in range(2 if t == "quick" else 12):
         thread_runs.append(thread_history(rnd.sample(binds, 3), rnd, reps=36 if t == "quick" else 80))
-    all_raw = [(raw, km) for raw, km in results] + thread_runs
+    # concurrent FIRST use of the library in fresh interpreters (lazy initialisation must not race)
+    fresh_thr = []
+    for k in range(6 if t == "quick" else 40):
+        bnd = rnd.sample(binds, 2)
+        per_thread, km = [], {}
+        for tix in range(8):
+            ops = []
+            oid = 0
+            for (tt, bb, lg) in (bnd[0] + bnd[1]):
+                oid += 1
+                ops.append(["new", tix * 100 + oid, E(tt), E(bb), lg])
+                ops.append(["readable", tix * 100 + oid])
+                ops.append(["fix", tix * 100 + oid, (tix + oid) % 3, bool(tix & 1), False, False])
+                km[apirec.krepr("pair", tt, bb, lg)] = (tt, bb, lg)
+            per_thread.append(ops)
+        fresh_thr.append((apirec.run_fresh_threaded(per_thread, hashseed=str(k % 2)), km))
+    rep.extra["fresh_interpreters_with_concurrent_first_use"] = len(fresh_thr)
+    all_raw = [(raw, km) for raw, km in results] + thread_runs + fresh_thr
     # references from fresh interpreters
     need = {}
     for raw, km in all_raw:
